@@ -203,4 +203,53 @@ class C10a(Obligation):
                   'in-package relative imports use the normal search path')
 
 
-OBLIGATIONS = [C10a, C10c]
+from jedi.inference.compiled.subprocess import functions as jfunctions  # noqa: E402
+
+
+class C10d(Obligation):
+    id = 'C10.d'
+    title = 'sub-module search never falls back to a top-level (sys.path-wide) lookup of the bare name'
+    pattern = 'P5 decision table (importlib finders are stubs with symbolic answers)'
+    assumptions = (
+        'importlib.machinery.PathFinder.find_spec and importlib.util.find_spec are stubs answering found / not found '
+        '(symbolic); _from_loader is a stub returning which loader was used',
+    )
+
+    def scenario(self, ctx, cfg):
+        has_path = ctx.flag('search_inside_a_package_path')
+        given_loader = ctx.flag('loader_given')
+        path_finder_finds = ctx.flag('PathFinder_finds_it')
+        global_finds = ctx.flag('top_level_lookup_would_find_a_module_of_that_name')
+        ctx.int('unused')
+        calls = []
+
+        def path_find_spec(string, path=None):
+            calls.append(('PathFinder', path))
+            return Obj(loader='LOADER-FROM-PATH') if path_finder_finds else None
+
+        def util_find_spec(string):
+            calls.append(('global', string))
+            return Obj(loader='LOADER-GLOBAL') if global_finds else None
+
+        fake = Obj(machinery=Obj(PathFinder=Obj(find_spec=path_find_spec)), util=Obj(find_spec=util_find_spec))
+        ctx.patch(jfunctions, 'importlib', fake)
+        ctx.patch(jfunctions, '_from_loader', lambda loader, string: ('loaded-by', loader))
+        ctx.force(jfunctions._find_module_py33)
+        path = ['/pkg/dir'] if has_path else None
+        out = ctx.call(jfunctions._find_module_py33, 'name', path, 'GIVEN-LOADER' if given_loader else None)
+        used_global = ('global', 'name') in calls
+        if has_path:
+            ctx.check(not used_global, 'a search below a package never consults the interpreter-wide lookup')
+            if not given_loader and not path_finder_finds:
+                ctx.check(out.raised(ImportError), 'a missing sub-module is an ImportError, as in Python')
+        if given_loader:
+            ctx.check(out.exc is None and out.value == ('loaded-by', 'GIVEN-LOADER'), 'a given loader is used as is')
+        elif path_finder_finds:
+            ctx.check(out.exc is None and out.value == ('loaded-by', 'LOADER-FROM-PATH'), 'the path finder\'s loader wins')
+        elif not has_path and global_finds:
+            ctx.check(out.exc is None and out.value == ('loaded-by', 'LOADER-GLOBAL'), 'top-level search may fall back to builtins')
+        else:
+            ctx.check(out.raised(ImportError), 'nothing found => ImportError')
+
+
+OBLIGATIONS = [C10a, C10c, C10d]
